@@ -64,12 +64,15 @@ enum Shape {
     S3(usize), // () -> Val<Mi>
     S4(usize), // (Val<Mi>, u64) -> u64
     S5,        // (u64) -> u64
+    S6(usize), // (Verdict<Val<Mi>, u64>) -> u64   (composite signatures: the components and their order,
+    S7(usize), // (Result<u64, Val<Mi>>) -> u64     `rust_type_to_roto_type` on Verdict / Result / List)
+    S8(usize), // (List<Val<Mi>>) -> u64
 }
 
 impl Shape {
     fn marker(&self) -> Option<usize> {
         match self {
-            Shape::S1(i) | Shape::S2(i) | Shape::S3(i) | Shape::S4(i) => Some(*i),
+            Shape::S1(i) | Shape::S2(i) | Shape::S3(i) | Shape::S4(i) | Shape::S6(i) | Shape::S7(i) | Shape::S8(i) => Some(*i),
             _ => None,
         }
     }
@@ -81,6 +84,9 @@ impl Shape {
             Shape::S3(i) => format!("0 r {i}"),
             Shape::S4(i) => format!("2 r {i} r 100 r 100"),
             Shape::S5 => "1 r 100 r 100".into(),
+            Shape::S6(i) => format!("1 v r {i} r 100 r 100"),
+            Shape::S7(i) => format!("1 e r 100 r {i} r 100"),
+            Shape::S8(i) => format!("1 l r {i} r 100"),
         }
     }
     fn code(&self) -> String {
@@ -91,6 +97,9 @@ impl Shape {
             Shape::S3(i) => format!("S3.{i}"),
             Shape::S4(i) => format!("S4.{i}"),
             Shape::S5 => "S5".into(),
+            Shape::S6(i) => format!("S6.{i}"),
+            Shape::S7(i) => format!("S7.{i}"),
+            Shape::S8(i) => format!("S8.{i}"),
         }
     }
     fn parse(s: &str) -> Shape {
@@ -102,6 +111,9 @@ impl Shape {
             "S2" => Shape::S2(i),
             "S3" => Shape::S3(i),
             "S4" => Shape::S4(i),
+            "S6" => Shape::S6(i),
+            "S7" => Shape::S7(i),
+            "S8" => Shape::S8(i),
             _ => Shape::S5,
         }
     }
@@ -464,6 +476,9 @@ fn build_fn(name: &str, shape: &Shape, tag: u64) -> Result<Function, Registratio
         Shape::S2(i) => with_m!(*i, T => Function::new(name, "", vec!["a"], move |_a: Option<Val<T>>| tag, loc)),
         Shape::S3(i) => with_m!(*i, T => Function::new(name, "", vec![], move || Val(T::new(tag)), loc)),
         Shape::S4(i) => with_m!(*i, T => Function::new(name, "", vec!["a", "b"], move |_a: Val<T>, _b: u64| tag, loc)),
+        Shape::S6(i) => with_m!(*i, T => Function::new(name, "", vec!["a"], move |_a: roto::Verdict<Val<T>, u64>| tag, loc)),
+        Shape::S7(i) => with_m!(*i, T => Function::new(name, "", vec!["a"], move |_a: Result<u64, Val<T>>| tag, loc)),
+        Shape::S8(i) => with_m!(*i, T => Function::new(name, "", vec!["a"], move |_a: roto::List<Val<T>>| tag, loc)),
     }
 }
 
@@ -608,6 +623,9 @@ fn probe_expr(path: &[String], info: &ItemInfo) -> Option<String> {
             Shape::S2(i) => format!("{p}(Some({}))", arg(*i)),
             Shape::S3(i) => format!("zzget{i}({p}())"),
             Shape::S4(i) => format!("{p}({}, 7)", arg(*i)),
+            Shape::S6(i) => format!("{p}(Verdict.Accept({}))", arg(*i)),
+            Shape::S7(i) => format!("{p}(Err({}))", arg(*i)),
+            Shape::S8(i) => format!("{p}([{}])", arg(*i)),
         },
         "const" => match info.ty {
             None => p,
@@ -856,11 +874,14 @@ impl<'a> Gen<'a> {
             return if self.rng.chance(1, 2) { Shape::S0 } else { Shape::S5 };
         }
         let i = *self.rng.pick(avail);
-        match self.rng.below(4) {
+        match self.rng.below(7) {
             0 => Shape::S1(i),
             1 => Shape::S2(i),
             2 => Shape::S3(i),
-            _ => Shape::S4(i),
+            3 => Shape::S4(i),
+            4 => Shape::S6(i),
+            5 => Shape::S7(i),
+            _ => Shape::S8(i),
         }
     }
 
@@ -1141,7 +1162,7 @@ fn inject(lib: &mut Vec<It>, pos: &[usize], kind: &Defect, spec: &Spec, rng: &mu
             let m = *rng.pick(&free);
             let name = format!("un{tag}");
             let (it, what) = match rng.below(if in_impl { 2 } else { 3 }) {
-                0 => (It::Fn { name, shape: match rng.below(4) { 0 => Shape::S1(m), 1 => Shape::S2(m), 2 => Shape::S3(m), _ => Shape::S4(m) }, tag }, "unregistered fn"),
+                0 => (It::Fn { name, shape: match rng.below(7) { 0 => Shape::S1(m), 1 => Shape::S2(m), 2 => Shape::S3(m), 3 => Shape::S4(m), 4 => Shape::S6(m), 5 => Shape::S7(m), _ => Shape::S8(m) }, tag }, "unregistered fn"),
                 1 => (It::Const { name, ty: Some(m), tag }, "unregistered const"),
                 _ => (It::Impl { ty: Some(m), ch: vec![] }, "unregistered impl"),
             };
@@ -1478,6 +1499,13 @@ fn fixed_cases() -> Vec<(Vec<Vec<It>>, &'static str)> {
         (vec![vec![module("a", vec![f("f", 1)]), module("b", vec![f("f", 2)]), usei(&[&["a", "f"]]), usei(&[&["b", "f"]])]], "two uses bind the same name"),
         (vec![vec![module("a", vec![t("T", 0), It::Impl { ty: Some(0), ch: vec![f("sm", 11), It::Const { name: s("K"), ty: None, tag: 12 }] }]), usei(&[&["a", "T"]])]], "use of a type: members through the bound name"),
         (vec![vec![module("a", vec![module("b", vec![f("f", 1)])]), usei(&[&["a", "b"]])]], "use of a module"),
+        // class representatives of the composite signature shapes (one per TypeDescription constructor with components),
+        // as functions and as methods of a type declared in another module than the impl block
+        (vec![vec![t("T", 0), It::Fn { name: s("fv"), shape: Shape::S6(0), tag: 21 }, It::Fn { name: s("fr"), shape: Shape::S7(0), tag: 22 },
+            It::Fn { name: s("fl"), shape: Shape::S8(0), tag: 23 }, It::Fn { name: s("fo"), shape: Shape::S2(0), tag: 24 }]], "composite signatures: Verdict, Result, List, Option"),
+        (vec![vec![module("m", vec![t("T", 1)]), It::Impl { ty: Some(1), ch: vec![It::Fn { name: s("mv"), shape: Shape::S6(1), tag: 25 },
+            It::Fn { name: s("mr"), shape: Shape::S7(1), tag: 26 }, It::Fn { name: s("ml"), shape: Shape::S8(1), tag: 27 }] }]], "composite signatures on methods of a type in a module, impl at the root"),
+        (vec![vec![It::Fn { name: s("fv"), shape: Shape::S6(2), tag: 28 }]], "composite signature mentioning an unregistered type"),
     ]
 }
 
